@@ -1081,8 +1081,12 @@ class WorkflowConductor(object):
                         # Remove the root context to avoid overwriting vars.
                         out_ctx_idxs.remove(0)
 
-                        # Extend the outgoing context from this task.
-                        staged_next_task["ctxs"]["in"].extend(out_ctx_idxs)
+                        # Extend the outgoing context from this task with the contexts that the next
+                        # task does not have yet. A context it already has (i.e. from another task
+                        # transition of this task) must not be applied again over a newer one.
+                        staged_next_task["ctxs"]["in"].extend(
+                            [i for i in out_ctx_idxs if i not in staged_next_task["ctxs"]["in"]]
+                        )
 
                         # Add a backref for the current task in the next task.
                         staged_next_task["prev"][backref] = task_state_idx
